@@ -566,7 +566,10 @@ static void runScenario(const Scenario& sc, uint64_t idx)
             string p = homeDir + "/" + unhexf(t[1]);
             mkdirs(p);
             std::ofstream f(p, std::ios::binary);
-            f << unhexf(t.size() > 2 ? t[2] : "-");
+            string content = unhexf(t.size() > 2 ? t[2] : "-");
+            // "@HOME@" inside a file (an --arg-file line that includes another file) is the scratch home directory
+            for (auto hp = content.find("@HOME@"); hp != string::npos; hp = content.find("@HOME@", hp)) content.replace(hp, 6, homeDir);
+            f << content;
             createdFiles.push_back(p);
          }
          else if (c == "E") { string n = unhexf(t[1]); setenv(n.c_str(), unhexf(t.size() > 2 ? t[2] : "-").c_str(), 1); setEnvs.push_back(n); }
